@@ -22,8 +22,10 @@
  *                        memmove exactly when 0 < offset < used
  *  C15.in.stop_reason    ret == 0 ==> buffer full, codec BUFFER_FULL, or the
  *                        source is at EOF and was flushed
- *  C15.in.fail           ret != 0 <=> source error (its code) or codec error
- *                        (SQFS_ERROR_COMPRESSOR)
+ *  C15.in.fail           a source error (its code) or codec error
+ *                        (SQFS_ERROR_COMPRESSOR) is reported; the only other
+ *                        permitted failure: the source is at EOF, the codec
+ *                        is in mid-stream and, flushed, delivered nothing more
  */
 #ifndef CALLS
 #define CALLS 3
@@ -108,7 +110,8 @@ void harness(void)
 					      : SQFS_ERROR_COMPRESSOR),
 			     "C15.in.fail");
 	else if (ret != 0)
-		VERIF_ASSERT(ret < 0 && g_eofseen && g_open, "C15.in.fail");
+		VERIF_ASSERT(ret < 0 && g_eofseen && g_open && g_last_p == 0 &&
+			     g_last_mode == XFRM_STREAM_FLUSH_FULL, "C15.in.fail");
 #ifdef C15_HAVE_IN_STREAM
 	if (ret == 0)
 		VERIF_ASSERT(g_x.in_stream == g_open, "C15.in.tracks_stream_state");
